@@ -19,6 +19,9 @@ struct Case {
   ctx: (u32, u32, bool), // before, after, use -C
   style: &'static str,   // pretty | stream | compact | plain
   scan: bool,
+  /// Some(kind): the rule is `kind: <kind>` instead of a pattern (scan only): every node of that kind is a match,
+  /// whatever its shape (several lines, text ending in a line break, ...)
+  kind: Option<String>,
 }
 
 fn item_json(v: &Value) -> Value {
@@ -56,6 +59,9 @@ fn run_case(c: &Case, scratch: &str, idx: usize) -> Value {
   let mut args: Vec<String> = vec![];
   if c.scan {
     let mut rule = json!({"id": "r", "language": c.lang, "severity": "warning", "message": "found $A", "rule": {"pattern": c.pattern}});
+    if let Some(k) = &c.kind {
+      rule["rule"] = json!({"kind": k});
+    }
     if let Some(r) = &c.rewrite {
       rule["fix"] = json!(r);
     }
@@ -163,7 +169,7 @@ pub fn drive(corpus: &str, seed: u64, out: &str, thorough: bool) {
           }
           let files: Vec<(String, String)> = subset.iter().enumerate().map(|(j, t)| (format!("d{}/f{j}.js", j % 2), texts[*t].clone())).collect();
           let rewrite = if k % 4 == 0 { Some("bar($A)".to_string()) } else { None };
-          cases.push(Case { id: format!("c16-{k}"), files, lang: "JavaScript", pattern: "foo($A)".into(), rewrite, ctx, style, scan });
+          cases.push(Case { id: format!("c16-{k}"), files, lang: "JavaScript", pattern: "foo($A)".into(), rewrite, ctx, style, scan, kind: None });
         }
       }
     }
@@ -184,7 +190,43 @@ pub fn drive(corpus: &str, seed: u64, out: &str, thorough: bool) {
     let ext = path.rsplit('.').next().unwrap().to_string();
     let lname: &'static str = Box::leak(util::lang_name(l).into_boxed_str());
     for (style, ctx) in [("stream", (1, 1, true)), ("plain", (0, 1, false))] {
-      cases.push(Case { id: format!("{path}#{style}"), files: vec![(format!("src/t.{ext}"), text.clone())], lang: lname, pattern: pat.clone(), rewrite: None, ctx, style, scan: false });
+      cases.push(Case { id: format!("{path}#{style}"), files: vec![(format!("src/t.{ext}"), text.clone())], lang: lname, pattern: pat.clone(), rewrite: None, ctx, style, scan: false, kind: None });
+    }
+    // matches of every shape: `kind` rules for kinds of this file, first those with a node whose text ends in a line
+    // break (preprocessor lines, doc comments, heredocs), then those with a node spanning lines, then any
+    let mut by_kind: std::collections::BTreeMap<String, (usize, bool, bool)> = Default::default();
+    for n in crate::c19::all_nodes(&g) {
+      if !n.is_named() || n.range().is_empty() {
+        continue;
+      }
+      let t = n.text();
+      let e = by_kind.entry(n.kind().to_string()).or_insert((0, false, false));
+      e.0 += 1;
+      e.1 |= t.ends_with('\n');
+      e.2 |= t.contains('\n');
+    }
+    let mut kinds: Vec<(u8, String)> = by_kind.iter().filter(|(_, v)| v.0 <= 40).map(|(k, v)| (if v.1 { 0 } else if v.2 { 1 } else { 2 }, k.clone())).collect();
+    kinds.sort();
+    let take = if thorough { 8 } else { 2 };
+    let n_special = kinds.iter().filter(|k| k.0 == 0).count();
+    let mut chosen: Vec<String> = kinds.iter().take(take.max(n_special.min(take + 2))).map(|k| k.1.clone()).collect();
+    if kinds.len() > chosen.len() {
+      chosen.push(kinds[chosen.len() + rng.below(kinds.len() - chosen.len())].1.clone());
+    }
+    for (j, k) in chosen.iter().enumerate() {
+      let (style, ctx) = [("stream", (0, 0, false)), ("compact", (1, 1, true)), ("pretty", (0, 1, false))][j % 3];
+      cases.push(Case { id: format!("{path}#kind-{k}"), files: vec![(format!("src/t.{ext}"), text.clone())], lang: lname, pattern: String::new(), rewrite: None, ctx, style, scan: true, kind: Some(k.clone()) });
+    }
+  }
+  for (lang, ext, text, kinds) in [
+    ("C", "c", "#include <stdio.h>\n#define GRÖSSE 42\nint main() { return 0; }\n#define LAST 1", vec!["preproc_include", "preproc_def"]),
+    ("Rust", "rs", "//! crate doc é\n/// item doc\nfn f() {}\n// plain\n/// last", vec!["line_comment", "function_item"]),
+    ("Python", "py", "def f():\n    return 1\n\n\nclass C:\n    x = \"é\"\n", vec!["function_definition", "block", "class_definition"]),
+    ("Bash", "sh", "cat <<EOF\nhé\nEOF\necho 1\n", vec!["heredoc_body", "redirected_statement", "command"]),
+  ] {
+    for (j, k) in kinds.iter().enumerate() {
+      let (style, ctx) = [("stream", (0, 0, false)), ("compact", (1, 1, true)), ("pretty", (0, 1, false))][j % 3];
+      cases.push(Case { id: format!("shape-{lang}-{k}"), files: vec![(format!("src/t.{ext}"), text.to_string())], lang, pattern: String::new(), rewrite: None, ctx, style, scan: true, kind: Some(k.to_string()) });
     }
   }
   let scratch = format!("/var/tmp/agv-c16-{}", std::process::id());
